@@ -188,6 +188,8 @@ def k7_calls(isa, t, tier, rng, half=None):
             res = res[::(len(res) + 3) // 4]
     r3 = []
     if not isc:
+        for n in sorted(set(x for x in (V - 1, V, V + 1, 2 * V + 1) if x >= 1)):
+            r3.append("g_assign_ops<%s,%d>();" % (t, n))
         for i, n in enumerate(res):
             r3.append("g_reduce_view<%s,%d>();" % (t, n))
             if full or i % 2 == 0 or len(res) == 1:
@@ -213,7 +215,7 @@ def k7_calls(isa, t, tier, rng, half=None):
         seen.add(c); out.append(c)
     return out
 
-KEEP = re.compile(r"g_(reduce_view|randview|randview2d|layout_map|filterview|lu_map|qr_map|dyn_trans|dyn_inner|heap_vec|outer_raw<\w+,[234],[234]>|trans_assign|own_batch|own_batch_la|heap_new|outer22_map|own_1d|expr_arith|reduce_map|inner_map|methods_map|methods_tensor|view1d|expr_mixed|reduce_expr|expr_math|norm_raw|minmax_map|matmul_raw|matmul_map|matmul_expr)<")
+KEEP = re.compile(r"g_(assign_ops|reduce_view|randview|randview2d|layout_map|filterview|lu_map|qr_map|dyn_trans|dyn_inner|heap_vec|outer_raw<\w+,[234],[234]>|trans_assign|own_batch|own_batch_la|heap_new|outer22_map|own_1d|expr_arith|reduce_map|inner_map|methods_map|methods_tensor|view1d|expr_mixed|reduce_expr|expr_math|norm_raw|minmax_map|matmul_raw|matmul_map|matmul_expr)<")
 
 def thin(calls, stride, seed):
     """quick tier: the families that carry the `every extent 1..2V+3` sweep and the public-API specials are kept, the
@@ -281,6 +283,41 @@ def corr_groups(tier, seed):
     groups.append({"key": "bounds/off", "header": "foot_probe.h", "isa": "avx2", "opt": "-O2", "defs": ["-DNDEBUG"], "calls": bcalls})
     return groups
 
+def mmflush_groups(tier, seed):
+    """the small-N row-remainder kernels of matmul_mk_smalln.h (ten remainders x AVX-512-mask / int-array-mask branches, `uptosimd` N < V and
+    `upto2simd` V < N < 2V ... families), the masked last column group of _matmul_base_masked, matvec and _tmatmul_base_masked: a, b and out each end
+    exactly at a guard page (placement F) and start at one (placement H).  One translation unit chunk per (ISA, type)."""
+    groups = []
+    pre = "#define VG_SEED %du" % (seed & 0xffff)
+    tags = {"l": "UpLoType::Lower", "u": "UpLoType::Upper", "g": "UpLoType::General"}
+    for isa in ["avx2", "avx512"] + (["avx", "sse2"] if tier != "quick" else []):
+        for t in FTYPES + (["int32_t", "int64_t"] if tier != "quick" else []):
+            V = lanes(isa, t)
+            ns = [n for n in range(1, 2 * V) if n != V]
+            if tier == "quick" and len(ns) > 14:      # avx512 float: every residue class of both families, not every N
+                ns = sorted(set([1, 2, 3, 5, 7, V - 1, V + 1, V + 2, V + 3, V + 5, V + 7, 2 * V - 1] + [n for n in ns if n % 8 == (seed % 8)]))[:14]
+            calls = []
+            for n in ns:
+                for r in range(10):
+                    if tier == "quick" and n > V and (r >= 5 or (n + r + seed) % 2):      # the upto2simd family unrolls by 5: r and r+5 share a kernel
+                        continue
+                    m = 10 + r if (n + r) % 2 == 0 else (r if r > 0 else 10)
+                    k = 2 + (n + r) % 2
+                    calls.append("g_mmflush<%s,%d,%d,%d>();" % (t, m, k, n))
+                calls.append("g_mmflush<%s,%d,1,%d>();" % (t, 3 + n % 7, n))
+            # matvec (N = 1): K around the width, M around the row unroll 8
+            for k in sorted(set([1, V - 1, V + 1, 2 * V + 3])):
+                for m in [1, 7, 8, 9]:
+                    if k >= 1:
+                        calls.append("g_mmflush<%s,%d,%d,1>();" % (t, m, k))
+            # masked last column group of the blocked kernel (N >= 5V, N % V > 1), row remainders 0..3
+            for (m, n) in [(4, 5 * V + 2), (5, 5 * V + V - 1), (7, 6 * V + 3), (9, 5 * V + 3)]:
+                calls.append("g_mmflush<%s,%d,2,%d>();" % (t, m, n))
+            for (m, k, n, a, b) in [(5, 5, V + 3, "l", "u"), (7, 4, 2 * V + 2, "u", "l"), (4, 6, V + 2, "l", "l"), (9, 3, V - 1 if V > 2 else 3, "u", "g")]:
+                calls.append('g_tmatmul_raw<%s,%d,%d,%d,%s,%s>("%s%s");' % (t, m, k, n, tags[a], tags[b], a, b))
+            groups.append({"key": "k7-mmflush/%s/%s" % (isa, t), "header": "guard_ops.h", "isa": isa, "opt": "-O1", "defs": ["-DNDEBUG"], "calls": calls, "pre": pre})
+    return groups
+
 def extra_k7_groups(tier, seed):
     """unoptimised build (keeps every aligned access the source asks for), runtime checks on, sanitizers (thorough)"""
     rng = random.Random(seed * 313 + 5)
@@ -290,9 +327,10 @@ def extra_k7_groups(tier, seed):
     for t in ["float", "double", "int32_t"]:
         for n in [3, 5, 9, 17]:
             o0 += ["g_methods_tensor<%s,%d>();" % (t, n), "g_own_1d<%s,%d>();" % (t, n), "g_expr_mixed<%s,%d>();" % (t, n)]
+        o0 += ["g_assign_ops<%s,%d>();" % (t, n) for n in (3, 4, 5, 9)]
         o0 += ["g_own_batch<%s,4,3>();" % t, "g_trans_assign<%s,3,3>();" % t, "g_matmul_map<%s,3,3,3>();" % t, "g_view2d<%s,3,5>();" % t]
     for isa in (["sse2", "avx2"] if tier == "quick" else ["sse2", "avx", "avx2", "avx512"]):
-        groups.append({"key": "k7-O0/%s" % isa, "header": "guard_ops.h", "isa": isa, "opt": "-O0", "calls": o0 if tier != "quick" else o0[::2], "pre": pre})
+        groups.append({"key": "k7-O0/%s" % isa, "header": "guard_ops.h", "isa": isa, "opt": "-O0", "calls": o0 if tier != "quick" else [c for i, c in enumerate(o0) if "assign_ops" in c or i % 2 == 0], "pre": pre})
     # C++17 (aligned operator new, if constexpr branches): a thin slice of the float / double corpus
     for isa in ["avx2", "avx512"]:
         calls = []
@@ -355,7 +393,7 @@ def run(tier, seed):
         for inp, obs, mo in lines:
             k = inp.split()[0]; kinds[k] = kinds.get(k, 0) + 1
         # ---- K7 observations
-        kg = k7_groups(tier, seed) + extra_k7_groups(tier, seed)
+        kg = k7_groups(tier, seed) + mmflush_groups(tier, seed) + extra_k7_groups(tier, seed)
         kn, kfail, kinfra, ksamples = flow.run_oracle_groups(kg, wd, per_tu=24 if tier == "quick" else 16)
         # a translation unit that died (sanitizer abort, uncaught crash outside the protected region) names its group and output
         for e in kinfra:
